@@ -179,7 +179,16 @@ func loadConstants() {
 	if err := readJSONFile(p, &cs); err == nil {
 		harvested = cs
 	}
+	if fp := os.Getenv("GEOSIM_FCONSTS"); fp != "" {
+		var fs []float64
+		if err := readJSONFile(fp, &fs); err == nil {
+			harvestedF = fs
+		}
+	}
 }
+
+// harvestedF are the floating-point literals of the library source.
+var harvestedF []float64
 
 // loadHotSites reads the list written by simctl ($GEOSIM_HOT). Call after
 // verifsim.SetSites.
